@@ -481,10 +481,14 @@ func ruleEscaperComplex(r *Run, p *Prog, rule string, g *ssa.Function, textIdx i
 		r.Fail(rule, name+"/shape", p.Pos(g.Pos()), "escaper has an unexpected signature")
 		return
 	}
-	text := g.Params[textIdx]
-	// the scan loop: a header whose condition compares a phi with len(text)
+	var text ssa.Value = g.Params[textIdx]
+	param := text
+	// the scan loop: a header whose condition compares a phi with len(text); the text is the
+	// parameter, or — when the escaper re-slices it behind every escaped character
+	// (`s = s[i+1:]; i = 0`) — a loop variable that starts as the parameter ("re-based" form)
 	var hdr *ssa.BasicBlock
 	var iPhi *ssa.Phi
+	var textPhi *ssa.Phi
 	for _, b := range g.Blocks {
 		if !isLoopHeader(b) {
 			continue
@@ -499,13 +503,28 @@ func ruleEscaperComplex(r *Run, p *Prog, rule string, g *ssa.Function, textIdx i
 		}
 		ph, ok := bo.X.(*ssa.Phi)
 		lc, ok2 := bo.Y.(*ssa.Call)
-		if ok && ok2 && builtinName(&lc.Call) == "len" && lc.Call.Args[0] == ssa.Value(text) && ph.Block() == b {
-			hdr, iPhi = b, ph
+		if ok && ok2 && builtinName(&lc.Call) == "len" && ph.Block() == b {
+			if lc.Call.Args[0] == param {
+				hdr, iPhi = b, ph
+			} else if tp, isPhi := lc.Call.Args[0].(*ssa.Phi); isPhi && tp.Block() == b {
+				fromParam := false
+				for k, e := range tp.Edges {
+					if !b.Dominates(b.Preds[k]) {
+						fromParam = e == param
+					}
+				}
+				if fromParam {
+					hdr, iPhi, textPhi = b, ph, tp
+				}
+			}
 		}
 	}
 	if hdr == nil {
 		r.Fail(rule, name+"/scan-loop", p.Pos(g.Pos()), "no scan loop `for i < len(text)` found in the escaper (cannot apply the rule; fail closed)")
 		return
+	}
+	if textPhi != nil {
+		text = textPhi
 	}
 	isB := func(v ssa.Value) bool {
 		idx, ok := byteAt(v, text)
@@ -582,6 +601,17 @@ func ruleEscaperComplex(r *Run, p *Prog, rule string, g *ssa.Function, textIdx i
 	if nEsc == 0 || nSafe == 0 {
 		r.Fail(rule, name+"/iter-kinds", p.Pos(g.Pos()), "the escaper loop has no escaping iteration or no safe-byte iteration (rule lost its grip)")
 	}
+	if textPhi != nil {
+		ruleEscaperRebased(r, p, rule, g, name, hdr, iPhi, textPhi, func() []iterPath {
+			var ps []iterPath
+			for _, inf := range iterInfos {
+				ps = append(ps, inf.pa)
+			}
+			return ps
+		}(), func(k int) bool { return iterInfos[k].hasE })
+		r.Count(rule+"_iter_paths", len(paths))
+		return
+	}
 	// pending-run start: every raw copy is text[start:i] / text[start:], and start only catches up with i
 	var startPhi *ssa.Phi
 	nCopies := 0
@@ -656,6 +686,83 @@ func ruleEscaperComplex(r *Run, p *Prog, rule string, g *ssa.Function, textIdx i
 		r.Fail(rule, name+"/start", p.Pos(g.Pos()), "pending-run start variable not found as a loop phi")
 	}
 	r.Count(rule+"_iter_paths", len(paths))
+}
+
+// ruleEscaperRebased: the pending-run rules for the re-based form of the escaper loop, in which
+// the pending run is always text[:i]: every raw copy inside the loop is text[:i], after the loop
+// the whole remaining text; an escaping iteration flushes the pending run (or has none), re-slices
+// the text to begin behind the scan index and restarts the index at 0; any other iteration leaves
+// the text alone.
+func ruleEscaperRebased(r *Run, p *Prog, rule string, g *ssa.Function, name string, hdr *ssa.BasicBlock, iPhi, textPhi *ssa.Phi, iters []iterPath, hasE func(int) bool) {
+	body := loopBlocks(hdr)
+	nCopies := 0
+	eachInstr(g, func(b *ssa.BasicBlock, i int, in ssa.Instruction) {
+		c, ok := in.(*ssa.Call)
+		if !ok {
+			return
+		}
+		spread, _ := appendElems(c)
+		if spread == nil {
+			return
+		}
+		if spread == ssa.Value(textPhi) {
+			// the whole remaining text: only once the scan has reached its end
+			nCopies++
+			okc := !body[b] && hasCmp(necessaryCmps(g, c), func(op token.Token, x, y ssa.Value) bool {
+				lc, isC := y.(*ssa.Call)
+				return x == ssa.Value(iPhi) && op == token.GEQ && isC && builtinName(&lc.Call) == "len" && lc.Call.Args[0] == ssa.Value(textPhi)
+			})
+			r.Ob(rule, name+"/raw-copy", p.Pos(c.Pos()), okc, true, tern(okc, "the remaining text is copied raw only after the scan reached its end (all of it classified)", "the remaining text is copied raw on a path where the scan has not reached its end"))
+			return
+		}
+		sl, ok := spread.(*ssa.Slice)
+		if !ok || sl.X != ssa.Value(textPhi) {
+			return
+		}
+		nCopies++
+		okc := sl.Low == nil && sl.High == ssa.Value(iPhi)
+		r.Ob(rule, name+"/raw-copy", p.Pos(c.Pos()), okc, true, tern(okc, "raw copy is text[:i] (bytes already classified)", "raw copy "+descr(sl)+" is not the run text[:i] of already classified bytes"))
+	})
+	if nCopies == 0 {
+		r.Fail(rule, name+"/raw-copy", p.Pos(g.Pos()), "no raw copy of the pending run found")
+	}
+	for k, pa := range iters {
+		tv := resolveOnIter(pa, hdr, textPhi)
+		iv := resolveOnIter(pa, hdr, iPhi)
+		var okS bool
+		var d string
+		if hasE(k) {
+			flushed := false
+			for _, b := range pa.blocks {
+				for _, in := range b.Instrs {
+					if c, ok := in.(*ssa.Call); ok {
+						if sp, _ := appendElems(c); sp != nil {
+							if sl, ok := sp.(*ssa.Slice); ok && sl.X == ssa.Value(textPhi) && sl.Low == nil && sl.High == ssa.Value(iPhi) {
+								flushed = true
+							}
+						}
+					}
+				}
+			}
+			nothingPending := hasCmp(cmpsOfEdges(pa.edges), func(op token.Token, x, y ssa.Value) bool {
+				n, isN := constInt(y)
+				return x == ssa.Value(iPhi) && isN && ((op == token.LEQ && n == 0) || (op == token.EQL && n == 0) || (op == token.LSS && n == 1))
+			})
+			rebased := false
+			if sl, ok := tv.(*ssa.Slice); ok && sl.X == ssa.Value(textPhi) && sl.High == nil && sl.Low != nil {
+				if add, ok := sl.Low.(*ssa.BinOp); ok && add.Op == token.ADD && (add.X == ssa.Value(iPhi) || add.Y == ssa.Value(iPhi)) {
+					rebased = true
+				}
+			}
+			zero, isZ := constInt(iv)
+			okS = rebased && isZ && zero == 0 && (flushed || nothingPending)
+			d = tern(okS, "after the escape the text is re-sliced behind the scan index, the index restarts at 0, pending bytes flushed", "after emitting an escape the text becomes "+descr(tv)+" and the scan index "+descr(iv)+" (or the pending run was not flushed): the escaped byte is copied again raw, or bytes are lost")
+		} else {
+			okS = tv == ssa.Value(textPhi)
+			d = tern(okS, "no escape: text and pending run untouched", "an iteration that emits nothing re-slices the text to "+descr(tv)+": the skipped bytes are never copied")
+		}
+		r.Ob(rule, name+"/start#"+itoa(k), p.Pos(firstPos(pa.blocks)), okS, true, d)
+	}
 }
 
 // (unused) isPhiOfSame: e is a phi merging only startPhi itself and the i-edge value (latch merge blocks)
@@ -854,7 +961,11 @@ func ruleA4JSON(r *Run, p *Prog) {
 
 // ruleNoEscapeTableInit: the only stores into noEscapeTable are in the package initialiser and
 // store the predicate  i >= 0x20 && i != '\\' && i != '"'  for i in [0, 0x7e].
-func ruleNoEscapeTableInit(r *Run, p *Prog, table *ssa.Global) {
+// tableContentsOf evaluates the contents of a package-level array that is filled once: in place by
+// the package initialiser (constant-range loop or constant-index stores), or built by a
+// parameterless function (`var t = newTable()`) whose result — a local array — is assigned as a
+// whole. Any store elsewhere, or anything outside the evaluable fragment, makes it undecided.
+func tableContentsOf(p *Prog, table *ssa.Global) (entries []int64, pos token.Pos, undecided string) {
 	// The table's contents are derived by evaluating the stores into it over the constant index
 	// range of the initialiser loop (finite domain, see rule_eval.go) and compared with the
 	// predicate the escapers rely on: entry b is true exactly for 0x20 <= b <= 0x7e, b != '\\', b != '"'.
@@ -864,16 +975,14 @@ func ruleNoEscapeTableInit(r *Run, p *Prog, table *ssa.Global) {
 	if a, ok := derefType(table.Type()).Underlying().(*types.Array); ok {
 		n = int(a.Len())
 	}
-	entries := make([]bool, n)
+	entries = make([]int64, n)
 	stores := 0
-	undecided := ""
-	var pos token.Pos
 	isInit := func(f *ssa.Function) bool {
 		return f.Parent() == nil && (f.Name() == "init" || strings.HasPrefix(f.Name(), "init#"))
 	}
 	fns := append([]*ssa.Function{}, p.ModFns...)
-	if pk := p.Pkg("internal/json"); pk != nil {
-		if pi := pk.Func("init"); pi != nil {
+	if table.Pkg != nil {
+		if pi := table.Pkg.Func("init"); pi != nil {
 			fns = append(fns, pi) // initialisers of package-level variables
 		}
 	}
@@ -884,7 +993,7 @@ func ruleNoEscapeTableInit(r *Run, p *Prog, table *ssa.Global) {
 	}
 	var sitesIn []site
 	for _, f := range fns {
-		if pkgRel(f) != "internal/json" {
+		if f.Pkg != table.Pkg {
 			continue
 		}
 		direct := false
@@ -980,7 +1089,7 @@ func ruleNoEscapeTableInit(r *Run, p *Prog, table *ssa.Global) {
 				if !ok1 || !ok2 || k < 0 || int(k) >= n {
 					return false
 				}
-				entries[k] = v != 0
+				entries[k] = v
 				return true
 			}
 			// inside a constant-range loop, or a straight-line store with a constant index
@@ -1015,6 +1124,20 @@ func ruleNoEscapeTableInit(r *Run, p *Prog, table *ssa.Global) {
 	}
 	if stores == 0 && undecided == "" {
 		undecided = "no initialising store into the table found"
+	}
+	return entries, pos, undecided
+}
+
+func ruleNoEscapeTableInit(r *Run, p *Prog, table *ssa.Global) {
+	// The table's contents are derived by evaluating the stores into it over the constant index
+	// range of the initialiser loop (finite domain, see rule_eval.go; tableContentsOf) and compared
+	// with the predicate the escapers rely on: entry b is true exactly for 0x20 <= b <= 0x7e,
+	// b != '\\', b != '"'.
+	vals, pos, undecided := tableContentsOf(p, table)
+	n := len(vals)
+	entries := make([]bool, n)
+	for k, v := range vals {
+		entries[k] = v != 0
 	}
 	if undecided != "" {
 		r.Ob("A4", "json.noEscapeTable/init", p.Pos(pos), false, true, "the contents of the no-escape table cannot be determined: "+undecided)
